@@ -168,9 +168,19 @@ def site_setup(b):
     rl = b.st.lookup('rate_limit')
     b.assume(z3.Implies(z3.Not(rl.ty.is_none(rl.z)), rl.ty.val(rl.z) >= 1))
 
+    RL = models.opaque_type('RateLimiterObj')
+    RL.lenient = True
+    # the limiter's class constants, read from the source (literal values)
+    RL.attrs = {}
+    for nm in ('PAUSE_THRESHOLD_SECONDS', 'PAUSE_LIMIT'):
+        try:
+            RL.attrs[nm] = class_const(nm)
+        except Exception:
+            pass
+
     def mk(interp, st, args, kwargs):
         st.emit('RateLimitedIO', limit=args[0])
-        yield st, sym.fresh(models.opaque_type('RateLimiterObj'), 'rl')
+        yield st, sym.fresh(RL, 'rl')
 
     b.bind('utils', Obj('utils', RateLimitedIO=Model('RateLimitedIO', mk)))
     b.bind('DEFAULT_STREAM_CHUNK_SIZE', source.module_assign('replicat/backends/base.py', 'DEFAULT_STREAM_CHUNK_SIZE').value)
